@@ -21,6 +21,7 @@ DEFAULT_PROFILE = dict(
     max_depth=4, max_stmts=18, n_dests=(1, 3), p_dest_fail=0.15, p_typed=0.3, p_ser_fail=0.12,
     p_missing_field=0.05, p_extractor=0.5, p_ext_fail=0.25, p_str_raises=0.2, p_late_add=0.2,
     p_handles=0.35, p_remote=0.25, p_globals=0.2, p_probe=0.3, p_raise=0.3, p_task=0.1, p_remove=0.08,
+    p_reserved=0.0, p_deferred=0.2,
 )
 
 KEYS = ["x", "y", "z", "k1", "k2"]
@@ -119,7 +120,11 @@ class PG:
         rng = self.rng
         n = rng.randint(0, 3) if n is None else n
         out = []
-        for k in rng.sample(KEYS, n):
+        names = rng.sample(KEYS, n)
+        if self.prof.get("p_reserved") and rng.random() < self.prof["p_reserved"]:
+            # field names that coincide with the structural keys eliot sets itself afterwards
+            names = names + [rng.choice(["task_level", "task_uuid", "timestamp"])]
+        for k in names:
             r = rng.random()
             v = {"n": rng.randint(0, 9)} if r < 0.5 else ({"s": rng.choice(["a", "b c", "é"])} if r < 0.8 else {"o": rng.randint(0, 3)})
             out.append([k, v])
@@ -134,6 +139,7 @@ class PG:
         f = self.fields()
         sers = None
         if rng.random() < self.prof["p_typed"]:
+            f = [kv for kv in f if kv[0] not in ("task_level", "task_uuid", "timestamp")]
             start = [[k, self.sid()] for k, _ in f]
             if rng.random() < self.prof["p_missing_field"]:
                 start.append(["missing", self.sid()])
@@ -150,6 +156,7 @@ class PG:
         f = self.fields()
         sers = None
         if rng.random() < self.prof["p_typed"]:
+            f = [kv for kv in f if kv[0] not in ("task_level", "task_uuid", "timestamp")]
             sers = [[k, self.sid()] for k, _ in f]
             if rng.random() < self.prof["p_missing_field"]:
                 sers.append(["missing", self.sid()])
@@ -196,7 +203,9 @@ class PG:
                 out.append(dict(op="serializeAs", y=y, x=x))
                 self.nact = getattr(self, "nact", 0) + 1
                 sp = dict(atype="eliot:remote_task#%d" % self.nact if rng.random() < 0.5 else "eliot:remote_task", fields=self.fields(1), sers=None)
-                body = self.block(depth + 1, dict(st, in_action=True)) if depth < prof["max_depth"] else []
+                # the continuation may be placed anywhere later (also inside some `with x:`), so its body must not
+                # enter any existing action with `with` (nested `with` on one Action object is documented misuse)
+                body = self.block(depth + 1, dict(st, in_action=True, entered=frozenset(st["all_handles"]))) if depth < prof["max_depth"] else []
                 cont = dict(op="continueWith", y=y, spec=sp, body=body)
                 if rng.random() < 0.5:
                     out.append(cont)
@@ -217,6 +226,25 @@ class PG:
                 out.append(dict(op="try", body=body, handler=handler))
             if st.get("pending") and rng.random() < 0.4:
                 out.append(st["pending"].pop(0))
+            if st["all_handles"] and rng.random() < prof["p_deferred"] and self.budget > 0:
+                # use, from here, an action object that was created somewhere else earlier (maybe inside an action that has ended)
+                self.budget -= 1
+                x = rng.choice(st["all_handles"])
+                r2 = rng.random()
+                if r2 < 0.35 and x not in st["entered"]:
+                    sub = dict(st, in_action=True, entered=st["entered"] | {x})
+                    body = [dict(op="probe", n=self.nprobe)] + (self.block(depth + 1, sub) if depth < prof["max_depth"] else [])
+                    self.nprobe += 1
+                    out.append(dict(op="withHandle", x=x, body=body))
+                elif r2 < 0.6:
+                    out.append(dict(op=rng.choice(["inContext", "runIn"]), x=x, body=[dict(op="probe", n=self.nprobe), dict(op="log", ms=self.mspec())]))
+                    self.nprobe += 1
+                elif r2 < 0.8:
+                    out.append(dict(op="logTo", x=x, ms=self.mspec()))
+                else:
+                    out.append(dict(op="finish", x=x, exc=None))
+                out.append(dict(op="probe", n=self.nprobe))
+                self.nprobe += 1
         return out
 
     def dest_ops(self):
@@ -242,6 +270,7 @@ class PG:
         sp, sers = self.spec()
         out.append(dict(op="startAs", x=x, task=rng.random() < 0.15, spec=sp))
         st["handles"] = st["handles"] + [x]
+        st["all_handles"].append(x)
         k = rng.randint(1, 3)
         finished = False
         for _ in range(k):
@@ -269,8 +298,8 @@ class PG:
                 out.append(dict(op="logTo", x=x, ms=self.mspec()))
             elif r < 0.6:
                 out.append(dict(op="addSuccess", x=x, fs=self.fields(1)))
-            elif r < 0.8:
-                body = self.block(depth + 1, sub) if depth < self.prof["max_depth"] else []
+            elif r < 0.8 and x not in st["entered"]:
+                body = self.block(depth + 1, dict(sub, entered=st["entered"] | {x})) if depth < self.prof["max_depth"] else []
                 if rng.random() < 0.4:
                     # use the action's context()/run() while inside `with x:`
                     body = body + [dict(op=rng.choice(["inContext", "runIn"]), x=x, body=[dict(op="probe", n=self.nprobe)]),
@@ -298,7 +327,7 @@ def gen_case(rng, profile=None):
     prof = dict(DEFAULT_PROFILE, **(profile or {}))
     env = gen_env(rng, prof)
     pg = PG(rng, prof)
-    st = dict(handles=[], ids=[], in_handler=False, in_action=False, pending=[])
+    st = dict(handles=[], ids=[], in_handler=False, in_action=False, pending=[], all_handles=[], entered=frozenset())
     prog = []
     if rng.random() > prof["p_late_add"]:
         prog += pg.dest_ops()
